@@ -92,7 +92,7 @@ def programs(tier: str):
             yield {"stream": True, "close": how, "place": place}
     for ending in ("return", "raise"):
         yield {"enter_cancelled": True, "ending": ending}
-    for after in ("scope-returned", "scope-raised", "scope-cancelled", "scope-cancelled-in-exit"):
+    for after in ("scope-returned", "scope-raised", "scope-cancelled", "scope-cancelled-in-exit", "scope-cancelled+task-fails-on-cancel", "scope-raised+task-fails-on-cancel", "scope-cancelled-in-exit+task-fails-on-cancel"):
         yield {"detached": True, "pauses": 1, "after": after}
     kmax = BOUNDS[tier]["max_spawns"]
     for k in range(0, kmax + 1):
@@ -274,6 +274,12 @@ def _detached_once(program, ch: Chooser) -> Result:
         async def blocked():
             await w.pause("inner.blocked")
 
+        async def fails_when_cancelled():
+            try:
+                await w.pause("inner.blocked")
+            except asyncio.CancelledError:
+                raise ValueError("clean-up of the spawned task failed") from None
+
         async def main():
             after = program.get("after")
             if after:
@@ -288,6 +294,20 @@ def _detached_once(program, ch: Chooser) -> Result:
                             await asyncio.sleep(0)
                         if after == "scope-cancelled-in-exit":
                             ctx.spawn(blocked)
+                            w.loop.call_soon(asyncio.current_task().cancel)
+                        if after == "scope-cancelled+task-fails-on-cancel":
+                            # the body is cancelled AND a spawned task fails while being cancelled
+                            ctx.spawn(fails_when_cancelled)
+                            await asyncio.sleep(0)
+                            asyncio.current_task().cancel()
+                            await asyncio.sleep(0)
+                        if after == "scope-raised+task-fails-on-cancel":
+                            ctx.spawn(fails_when_cancelled)
+                            await asyncio.sleep(0)
+                            raise ValueError("body")
+                        if after == "scope-cancelled-in-exit+task-fails-on-cancel":
+                            ctx.spawn(fails_when_cancelled)
+                            await asyncio.sleep(0)
                             w.loop.call_soon(asyncio.current_task().cancel)
                 except ValueError:
                     pass
